@@ -788,6 +788,8 @@ class HeavyHitters:
         -------
         int
         """
+        # Only the first max_key_len bytes are used, same as add()
+        key = key[: int(self.max_key_len)]
         key_len = len(key)
         max_count = _max_count(
             self.lhh,
